@@ -52,7 +52,8 @@ func goEnvRoot(tool string) string {
 // buildAndCrash writes, compiles (-N -l) and runs the program; returns its real traceback.
 func buildAndCrash(c *c19Case) (*builtProg, error) {
 	rr := core.NewRand(c.Seed, 19, uint64(c.Idx))
-	p := gen.GenProg(rr, 15+rr.Intn(16))
+	// every other program without a source mismatch is spread over two source files
+	p := gen.GenProgFiles(rr, 15+rr.Intn(16), c.Mismatch == "" && c.Idx%2 == 1)
 	dir := filepath.Join(os.Getenv("VERIF_WORK"), fmt.Sprintf("prog-%s-%d-%s-%v", c.Toolchain, c.Idx, c.Mismatch, c.Naming))
 	_ = os.RemoveAll(dir)
 	if err := os.MkdirAll(dir, 0o755); err != nil {
@@ -60,6 +61,11 @@ func buildAndCrash(c *c19Case) (*builtProg, error) {
 	}
 	if err := os.WriteFile(filepath.Join(dir, "main.go"), []byte(p.Src), 0o644); err != nil {
 		return nil, err
+	}
+	if p.Src2 != "" {
+		if err := os.WriteFile(filepath.Join(dir, "part2.go"), []byte(p.Src2), 0o644); err != nil {
+			return nil, err
+		}
 	}
 	if err := os.WriteFile(filepath.Join(dir, "go.mod"), []byte(fmt.Sprintf("module example.com/prog%d\n\ngo 1.23\n", c.Idx)), 0o644); err != nil {
 		return nil, err
@@ -320,6 +326,9 @@ func c19Eval(r *core.Run, c *c19Case) {
 				}
 				checked++
 				r.Count("frames_checked", 1)
+				if f.File != "" {
+					r.Count("frames_checked_in_second_source_file", 1)
+				}
 				for _, pp := range f.Params {
 					r.Mark("kinds_checked", pp.Kind)
 				}
